@@ -19,7 +19,10 @@ type slicer struct {
 	seen   map[sliceKey]bool
 	steps  int
 	loads  []*ssa.UnOp             // every load visited
+	curLoad ssa.Instruction
 	within map[*ssa.Function]bool // when set: a parameter reached without call context is followed to the call sites inside these functions
+	dataOnly bool                 // data dependence only: no control dependence of φ nodes / of which return is taken
+	forward  bool                 // store-to-load forwarding inside one function for field addresses with an identical base
 }
 
 type sliceKey struct {
@@ -83,7 +86,10 @@ func (s *slicer) walk(v ssa.Value, idx int, ctx *sliceCtx, depth int) {
 	case *ssa.UnOp:
 		if x.Op == token.MUL {
 			s.loads = append(s.loads, x)
+			prev := s.curLoad
+			s.curLoad = x
 			s.load(x.X, ctx, depth+1)
+			s.curLoad = prev
 		} else {
 			s.walk(x.X, 0, ctx, depth+1)
 		}
@@ -118,6 +124,9 @@ func (s *slicer) walk(v ssa.Value, idx int, ctx *sliceCtx, depth int) {
 	case *ssa.Phi:
 		for i, e := range x.Edges {
 			s.walk(e, 0, ctx, depth+1)
+			if s.dataOnly {
+				continue
+			}
 			for _, cj := range edgeFacts(x.Block().Preds[i], x.Block(), 0, map[ssa.Value]bool{}) {
 				for _, a := range cj {
 					s.walk(a.v, 0, ctx, depth+1)
@@ -131,6 +140,9 @@ func (s *slicer) walk(v ssa.Value, idx int, ctx *sliceCtx, depth int) {
 			for _, b := range sc.Blocks {
 				if r, ok := b.Instrs[len(b.Instrs)-1].(*ssa.Return); ok && idx < len(r.Results) {
 					s.walk(r.Results[idx], 0, nctx, depth+1)
+					if s.dataOnly {
+						continue
+					}
 					// which return is taken is a control dependence
 					for _, cj := range blockFacts(b) {
 						for _, a := range cj {
@@ -165,8 +177,87 @@ func (s *slicer) load(addr ssa.Value, ctx *sliceCtx, depth int) {
 			s.stores(base, fieldOfAddr(a), ctx, depth)
 			return
 		}
+		if s.forward {
+			if st := forwardedStore(a, s.curLoad); st != nil {
+				s.walk(st.Val, 0, ctx, depth)
+				return
+			}
+		}
 	}
 	s.walk(addr, 0, ctx, depth)
+}
+
+// sameAddr: two address expressions denote the same location by construction (same SSA base, same field path).
+func sameAddr(x, y ssa.Value) bool {
+	if x == y {
+		return true
+	}
+	fx, ok1 := x.(*ssa.FieldAddr)
+	fy, ok2 := y.(*ssa.FieldAddr)
+	if ok1 && ok2 {
+		return fieldOfAddr(fx) == fieldOfAddr(fy) && sameAddr(fx.X, fy.X)
+	}
+	return false
+}
+
+// forwardedStore: the store whose value a load of addr (at instruction load) observes, when that is decided by
+// the shape of the function: among the stores of the function to the same location, one dominates the load
+// and no other store can execute between it and the load.  nil when undecided.
+func forwardedStore(addr *ssa.FieldAddr, load ssa.Instruction) *ssa.Store {
+	if load == nil {
+		return nil
+	}
+	fn := load.Parent()
+	lb := load.Block()
+	var doms, others []*ssa.Store
+	for _, b := range fn.Blocks {
+		for _, ins := range b.Instrs {
+			st, ok := ins.(*ssa.Store)
+			if !ok || !sameAddr(st.Addr, addr) {
+				continue
+			}
+			if (b == lb && instrIndex(b, st) < instrIndex(lb, load)) || (b != lb && b.Dominates(lb)) {
+				doms = append(doms, st)
+			} else {
+				others = append(others, st)
+			}
+		}
+	}
+	if len(doms) == 0 {
+		return nil
+	}
+	// latest dominating store
+	best := doms[0]
+	for _, d := range doms[1:] {
+		if (d.Block() == best.Block() && instrIndex(d.Block(), d) > instrIndex(best.Block(), best)) || (d.Block() != best.Block() && best.Block().Dominates(d.Block())) {
+			best = d
+		}
+	}
+	// no other store may run between best and the load
+	for _, o := range others {
+		if o.Block() == lb {
+			if instrIndex(lb, o) > instrIndex(lb, load) {
+				// after the load in the same block: only a problem inside a loop
+				if reachableAvoiding(lb, nil, nil)[lb] && blockInCycle(lb) {
+					return nil
+				}
+				continue
+			}
+		}
+		if reachableAvoiding(o.Block(), map[*ssa.BasicBlock]bool{best.Block(): true}, nil)[lb] {
+			return nil
+		}
+	}
+	return best
+}
+
+func blockInCycle(b *ssa.BasicBlock) bool {
+	for _, s := range b.Succs {
+		if s == b || reachableAvoiding(s, nil, nil)[b] {
+			return true
+		}
+	}
+	return false
 }
 
 func (s *slicer) stores(a *ssa.Alloc, field *types.Var, ctx *sliceCtx, depth int) {
